@@ -427,10 +427,15 @@ class Parser:
     ) -> Expression:
         tok = stream.next_token()
         precedence = self.PRECEDENCES.get(tok.type_, self.PRECEDENCE_LOWEST)
+        right_is_grouped = stream.current.type_ == TokenType.LPAREN
         right = self.parse_filter_expression(stream, precedence)
         operator = self.BINARY_OPERATORS[tok.type_]
 
         if operator in self.COMPARISON_OPERATORS:
+            if right_is_grouped:
+                raise JSONPathSyntaxError(
+                    "a parenthesized expression is not comparable", token=right.token
+                )
             self._raise_for_non_comparable_function(left, tok)
             self._raise_for_non_comparable_function(right, tok)
             return ComparisonExpression(tok, left, operator, right)
@@ -464,6 +469,12 @@ class Parser:
             expr = self.parse_infix_expression(stream, expr)
 
         stream.expect(TokenType.RPAREN)
+
+        if self.BINARY_OPERATORS.get(stream.peek.type_) in self.COMPARISON_OPERATORS:
+            raise JSONPathSyntaxError(
+                "a parenthesized expression is not comparable", token=stream.peek
+            )
+
         return expr
 
     def parse_root_query(self, stream: TokenStream) -> Expression:
@@ -685,6 +696,14 @@ class Parser:
     def _raise_for_non_comparable_function(
         self, expr: Expression, token: Token
     ) -> None:
+        if isinstance(
+            expr, (PrefixExpression, LogicalExpression, ComparisonExpression)
+        ):
+            raise JSONPathSyntaxError(
+                "only literals, singular queries and function calls are comparable",
+                token=token,
+            )
+
         if isinstance(expr, FilterQuery) and not expr.query.singular_query():
             raise JSONPathTypeError("non-singular query is not comparable", token=token)
 
